@@ -226,6 +226,10 @@ class Fingerprinter:
             return _h("enum", type(v).__name__, v.name)
         if hasattr(v, "shape") and hasattr(v, "dtype"):
             return _h(data_digest(v), str(id(v)) if self.with_identity else "")
+        if type(v).__module__.startswith("pytato.") and not getattr(v, "__dict__", None):
+            # stateless pytato objects (reduction operations): their hash is address-based,
+            # the class is the value
+            return _h("stateless", type(v).__module__, type(v).__qualname__)
         try:
             return _h("obj", type(v).__name__, str(hash(v)))
         except TypeError:
